@@ -41,8 +41,10 @@ WALKS = {
 def run(tier):
     chk = Check("C02", tier)
     for (module, cfg, ov, modes, rots) in CONFIGS[tier]:
+        # one case in 97 is replayed with every channel cloned 260 times (more than 255 objects per segment)
         run_config(chk, module, cfg, ov,
-                   lambda rec, i: {"rec": rec, "seed": chk.seed, "modes": modes, "rot": (i + chk.seed) % rots},
+                   lambda rec, i: {"rec": rec, "seed": chk.seed, "modes": modes, "rot": (i + chk.seed) % rots,
+                                   "widen": 260 if (i + chk.seed) % 97 == 0 else 0},
                    "harness.segments", "replay_segments_case", sample_fn=sample_fn)
     for (module, cfg, ov, modes, rots, walks, depth) in WALKS[tier]:
         run_config(chk, module, cfg, ov,
